@@ -8,6 +8,7 @@ from .. import cats, docgen as D, kdoc as K, spine as S, xform as X
 from ..common import Bad, Result
 
 ID = 'C05'
+SHARDS_QUICK = 4
 TC = kp.TokenCategory
 NAMES = cats.ALL
 RULE = ('Hypothesis documents (profile "full") x include/exclude selections: for EVERY document all 37 single-category '
@@ -85,6 +86,11 @@ def check(case):
         if n % 7 == 0 and K.via_primed(primed, kdoc, encoding=kp.Encoding.eKern, **kw) != got_text:
             raise Bad('exporter-with-a-past', f'include={I} exclude={Xc}: an Exporter object that exported other documents and selections before gives a different text than dumps',
                       include=I, exclude=Xc)
+        if n % 11 == 3 and K.via_dump_file(kdoc, expect=got_text, encoding=kp.Encoding.eKern, **kw) != got_text:
+            raise Bad('dump-file', f'include={I} exclude={Xc}: kernpy.dump writes a different text than dumps returns', include=I, exclude=Xc)
+        if n % 11 == 5 and K.via_reused_options(kdoc, encoding=kp.Encoding.eKern, **kw) != got_text:
+            raise Bad('options-with-a-past', f'include={I} exclude={Xc}: an Exporter and an ExportOptions object that were used for other documents before give a different text than dumps',
+                      include=I, exclude=Xc)
         if len(sel) == 37 and got_text != U:
             raise Bad('identity', f'include={I} exclude={Xc} selects everything but the export differs from the unfiltered one',
                       include=I, exclude=Xc)
@@ -102,7 +108,7 @@ def check(case):
 
 
 def run(ctx):
-    n = 150 if ctx.quick else 1000
+    n = 50 if ctx.quick else 1000
     ctx.run_hypothesis(cases(), check, max_examples=n, label='filter')
 
 
